@@ -45,6 +45,8 @@ def one_journal(src, mexe, idx, seed, tier):
     name, opts, size = r.choice(c03.BASES[:2])
     jimg = c03.JImage(c03.base_image(src, name, opts, size))
     mode = r.choice(["none", "v3", "v1"])
+    if idx % 4 == 3:
+        mode = "v3"          # the directed partial-failure journal below needs per-block tag checksums
     inc = {"none": 0, "v3": INCOMPAT_CSUM3, "v1": V1_CHECKSUM}[mode] | (INCOMPAT_64BIT if r.random() < 0.5 else 0)
     jlen = jimg.maxlen - jimg.first
     start_rel = r.choice([0, jlen - r.randint(1, 6), r.randint(0, jlen - 1)])
@@ -67,6 +69,16 @@ def one_journal(src, mexe, idx, seed, tier):
         for i in range(r.choice([4, 5, 6, 8])):
             txns.append({"seq": (seq0 + 1 + i) & 0xFFFFFFFF, "items": [("R", [extra[i % len(extra)]])], "commit": {"time": 1700000001 + i}})
         note = "data transaction followed by %d revoke-only transactions" % (len(txns) - 1)
+    elif idx % 4 == 3 and inc & INCOMPAT_CSUM3:
+        # the replay pass fails only partly (one logged block fails its tag checksum, the others are written): recovery
+        # reports the error, the journal is released all the same - the replayed blocks still have to be durable first
+        nrep = min(4, max(3, len(targets)))
+        tg = (targets * 4)[:nrep]
+        tags = [{"blk": t, "data": (bytes([0x60 + i]) * 16 + struct.pack(">II", seq0, t)).ljust(jimg.bs, bytes([0x71 + i]))} for i, t in enumerate(dict.fromkeys(tg))]
+        if len(tags) >= 2:
+            tags[1]["bad_tag_csum"] = True
+        txns = [{"seq": seq0, "items": [("D", tags)], "commit": {"time": 1700000000}}]
+        note = "one transaction, the second logged block fails its tag checksum"
     os.makedirs(WORK, exist_ok=True)
     a = os.path.join(WORK, "j%d.img" % idx)
     cfg, views = c03.prepare(jimg, inc, seq0, start_rel, txns, a)
